@@ -31,6 +31,9 @@ type Case struct {
 	Root   string   `json:"root"`
 	Msg    string   `json:"msg_b64"`
 	Source string   `json:"source,omitempty"` // raw | j5s
+	// Before: messages of the same schema handled earlier in the same generated
+	// case, in order (root, message): a session. Replay handles them first.
+	Before [][2]string `json:"before,omitempty"`
 	// Human-readable copies (not used by replay).
 	MsgText string `json:"msg_text,omitempty"`
 	Doc     string `json:"doc,omitempty"`
@@ -279,4 +282,25 @@ func renderAll(b *j5sx.Bundle) string {
 		fmt.Fprintf(&sb, "=== %s\n%s\n", n, b.Files[n])
 	}
 	return sb.String()
+}
+
+// Earlier rebuilds the messages of c.Before.
+func (c Case) Earlier(s *Schema) ([]protoreflect.Message, error) {
+	var out []protoreflect.Message
+	for _, b := range c.Before {
+		md := s.Find(b[0])
+		if md == nil {
+			return nil, fmt.Errorf("root %s missing", b[0])
+		}
+		raw, err := base64.StdEncoding.DecodeString(b[1])
+		if err != nil {
+			return nil, err
+		}
+		m := dynamicpb.NewMessage(md)
+		if err := (proto.UnmarshalOptions{Resolver: s.Types}).Unmarshal(raw, m); err != nil {
+			return nil, err
+		}
+		out = append(out, m)
+	}
+	return out, nil
 }
